@@ -9,7 +9,7 @@ import os, hashlib
 PROP = "C14O"
 AREAS = ["open", "agcv3", "archive", "collection"]
 PROFILES = ["dev", "release"]
-THEOREMS = ["open2_total_safe_refuted", "open2_release_total_safe", "open2_dev_panic_iff", "open2_total_safe_partial",
+THEOREMS = ["open2_total_safe_refuted", "open2_release_total_safe", "open2_dev_panic_iff", "open2_total_safe_if_repaired", "open2_total_safe_partial",
             "open2_profiles_agree", "open2_loop_is_count_loop", "open2_alloc_bounded", "open2_ok_means_listable", "open2_ok_iff",
             "open2_names_are_c03_decoder", "open2_max_off_irrelevant", "open2_requires_names",
             "prefix_rejected_open2_partial", "open2_complete_archive_ok", "open2_code_shape"]
@@ -300,7 +300,7 @@ def pre_cases(kind, fs, b):
 
 
 def gen_cases(rng, tier):
-    nreal, nvalid, ncont, ncraft, npy = (10, 6, 6, 4000, 4000) if tier == "quick" else (100, 80, 80, 120000, 120000)
+    nreal, nvalid, ncont, ncraft, npy = (10, 6, 6, 4000, 4000) if tier == "quick" else (80, 60, 60, 150000, 150000)
     STATS["archives"], STATS["prefixes"] = [], 0
     arch = real_archives(rng, nreal)
     if len(arch) < nreal:
